@@ -131,6 +131,13 @@ func (g *gen) newImage(subject int, shareFrom int) int {
 				o.Annot["org.example.long"] = strings.Repeat("x", g.r.between(10, 300))
 			}
 		}
+		if subject >= 0 && g.r.chance(15) {
+			// annotations the registry itself uses for its index entries are ordinary annotations on somebody else's manifest
+			if o.Annot == nil {
+				o.Annot = map[string]string{}
+			}
+			o.Annot[g.r.str("org.opencontainers.image.ref.name", "org.opencontainers.image.ref.name", "org.opencontainers.image.title", "org.olareg.referrer.subject", "org.olareg.referrer.convert")] = g.r.str("v1", "sig", "app", "true", digestOf("sha256", []byte("x")))
+		}
 	}
 	if subject >= 0 {
 		o.SubjAlgo = g.p.Objs[subject].RefAlgo
